@@ -10,6 +10,10 @@ import BV.Model.Codabar
 import BV.Model.Twooffive
 import BV.Model.Code128
 import BV.OpsMisc
+import BV.OpsDatamatrix
+import BV.OpsPdf417
+import BV.Model.Qr
+import BV.Spec.Qr
 namespace BV.Ops
 open BV BV.Proto
 
@@ -56,6 +60,24 @@ def encodeOp (f : List String) : Option (Res Barcode) :=
     pure (match sch with
       | some s => Model.Twooffive.encodeWithColor c (bool01 il) s
       | none => Model.Twooffive.encode c (bool01 il))
+  | ["qr", c, level, mode] => do
+    let c ← fromHex c
+    let level ← natField level
+    let mode ← natField mode
+    -- `qr.ErrorCorrectionLevel(int)`, `qr.Encoding(int)`: conversions to byte
+    pure (match sch with
+      | some s => Model.Qr.encodeWithColor c (level % 256) (mode % 256) s
+      | none => Model.Qr.encode c (level % 256) (mode % 256))
+  | ["dm", c] => do
+    let c ← fromHex c
+    pure (match sch with | some s => Model.Datamatrix.encodeWithColor c s | none => Model.Datamatrix.encode c)
+  | ["pdf", c, lvl] => do
+    let c ← fromHex c
+    let lvl ← natField lvl
+    let lvl := lvl % 256   -- `byte(atoi(..))` in the harness
+    pure (match sch with
+      | some s => Model.Pdf417.encodeWithColor c lvl s
+      | none => Model.Pdf417.encode c lvl)
   | _ => none
 
 /-- nested `scale W H FILL <inner op>` -/
@@ -83,7 +105,11 @@ def miscOp (f : List String) : Option String :=
     pure (match Model.Twooffive.addCheckSum c with
       | some s => "ok str=" ++ toHexField s
       | none => "rej")
-  | _ => OpsMisc.miscOp f
+  | ["spec.qr", w, h, px] => do
+    let w ← natField w
+    let h ← natField h
+    pure (Spec.Qr.decodeDigits w h px)
+  | _ => (OpsMisc.miscOp f <|> OpsDatamatrix.miscOp f <|> OpsPdf417.miscOp f)
 
 def execOp (line : String) : String :=
   let f := (line.splitOn " ").filter (· ≠ "")
